@@ -4,6 +4,7 @@ import (
 	"context"
 
 	"github.com/olive-io/bpmn/schema"
+	"github.com/olive-io/bpmn/v2/pkg/data"
 )
 
 // C08.a: n Do calls on one task request (concurrent), optional cancellation of the task's context.
@@ -123,6 +124,7 @@ func VerifC08c_NoHandler() { verifC08c(SkipMode, true) }
 // ApplyTaskDataOutput with declared names (a solver-chosen subset of a pool) and supplied names (another subset):
 // the stored keys are exactly declared AND supplied, each with the supplied value; nothing is stored without a declaration.
 var verifNames = []string{"a", "b", "c"}
+var verifDeclared = []schema.ItemType{schema.ItemTypeInteger, schema.ItemTypeString, ""}
 
 func VerifC08b_DeclaredOnly() {
 	var declared, supplied [3]bool
@@ -138,7 +140,8 @@ func VerifC08b_DeclaredOnly() {
 		supplied[i] = verifNondetBool("supplied")
 		vals[i] = verifNondetInt64("v")
 		if declared[i] {
-			res.Field = append(res.Field, &schema.Item{Name: verifNames[i], Type: schema.ItemTypeInteger})
+			// the declared type of a result field does not change what is stored: the supplied value decides
+			res.Field = append(res.Field, &schema.Item{Name: verifNames[i], Type: verifDeclared[verifChoice("declaredType", 0, 2)]})
 			ext.DataOutput = append(ext.DataOutput, schema.ExtensionAssociation{Name: verifNames[i]})
 		}
 		if supplied[i] {
@@ -168,4 +171,64 @@ func VerifC08b_DeclaredOnly() {
 		}
 	}
 	verifAssert(len(got) <= 3 && len(gotOut) <= 3, "nothing but the declared names is stored")
+}
+
+// C08.d: a successful answer's data outputs AND result fields both end up in the instance's data (flow loop's handling of
+// the response), whatever combination the answer carries.  The task node is a stand-in that answers at once with the
+// chosen combination; the flow loop and the data locator are the real code.
+type verifAnsweringNode struct {
+	elem schema.FlowNodeInterface
+	outs []*SequenceFlow
+	rsp  *FlowActionResponse
+}
+
+func (n *verifAnsweringNode) NextAction(ctx context.Context, flow Flow) chan IAction {
+	ch := make(chan IAction, 1)
+	verifPushAction(ch, flowAction{response: n.rsp, sequenceFlows: n.outs})
+	return ch
+}
+func (n *verifAnsweringNode) Element() schema.FlowNodeInterface { return n.elem }
+
+func VerifC08d_ResultsAndObjects() {
+	b := verifNewB("p")
+	b.flow("in", "s", "a", false)
+	b.task("a", []string{"in"}, []string{"n"})
+	b.flow("n", "a", "nx", false)
+	b.task("nx", []string{"n"}, nil)
+	inst := verifNewInst(b)
+	if inst.proc == nil {
+		return
+	}
+	var nx int64
+	inst.sinkAt("nx", &nx)
+	real := inst.nodeAt("a").(*harness)
+	hasObj := verifNondetBool("answerCarriesDataObject")
+	hasVar := verifNondetBool("answerCarriesResult")
+	x := verifNondetInt64("x")
+	rsp := &FlowActionResponse{dataObjects: map[string]data.IItem{}, variables: map[string]data.IItem{}}
+	if hasObj {
+		rsp.dataObjects["o"] = schema.NewValue(x)
+	}
+	if hasVar {
+		rsp.variables["v"] = schema.NewValue(x)
+	}
+	inst.proc.flowNodeMapping.mapping["a"] = &verifAnsweringNode{elem: inst.elem("a"), outs: allSequenceFlows(&real.outgoing), rsp: rsp}
+	inst.tokenAt("a", "in")
+	verifQuiesce()
+	verifReach("quiescent")
+	verifAssert(verifGet(&nx) == 1, "the token continues after a successful answer")
+	v, found := inst.proc.locator.GetVariable("v")
+	verifAssert(found == hasVar, "a declared result field of the answer is stored as a variable (and nothing else is)")
+	if found {
+		got, ok := v.(int64)
+		verifAssert(ok && got == x, "the stored result field carries the supplied value")
+	}
+	objFound := false
+	// (the way a later task reads data objects: FetchTaskDataInput -> CloneItems)
+	if item, ok := inst.proc.locator.CloneItems(data.LocatorObject)["o"]; ok && item != nil {
+		objFound = true
+		got, ok3 := item.Value().(int64)
+		verifAssert(ok3 && got == x, "the stored data output carries the supplied value")
+	}
+	verifAssert(objFound == hasObj, "a declared data output of the answer is stored as a data object (and nothing else is)")
 }
